@@ -19,7 +19,11 @@ import (
 type ent struct {
 	Data  []byte `json:"d"`
 	Mtime int64  `json:"m"`
+	Nanos int64  `json:"n,omitempty"` // sub-second part of the mtime
 }
+
+// ns is the full mtime in unix nanoseconds.
+func (e ent) ns() int64 { return e.Mtime*1e9 + e.Nanos }
 
 // treeSpec is a complete directory tree as data (replayable).
 type treeSpec struct {
@@ -142,7 +146,7 @@ func genTree(r *rand.Rand, withBad bool, maxTempl int) treeSpec {
 			src = goodTempl(r, pkgName(d), big)
 		}
 		p := path.Join(d, name+".templ")
-		t.Files[p] = ent{[]byte(src), mt()}
+		t.Files[p] = ent{Data: []byte(src), Mtime: mt()}
 		// stale sibling: older or newer than its template (matters for -lazy only)
 		if r.Intn(4) == 0 {
 			m := t.Files[p].Mtime
@@ -151,20 +155,20 @@ func genTree(r *rand.Rand, withBad bool, maxTempl int) treeSpec {
 			} else {
 				m -= 1 + int64(r.Intn(5000))
 			}
-			t.Files[path.Join(d, name+"_templ.go")] = ent{[]byte("// stale generated file\npackage " + pkgName(d) + "\n\nvar stale" + fmt.Sprint(i) + " = 1\n"), m}
+			t.Files[path.Join(d, name+"_templ.go")] = ent{Data: []byte("// stale generated file\npackage " + pkgName(d) + "\n\nvar stale" + fmt.Sprint(i) + " = 1\n"), Mtime: m}
 		}
 	}
 	if withBad { // at least one bad file of each kind outside skipped dirs; a bad file inside a skipped dir is harmless
 		d := live[r.Intn(len(live))]
-		t.Files[path.Join(d, "aaa_bad.templ")] = ent{[]byte(unparseableTempl(r, pkgName(d))), mt()}
+		t.Files[path.Join(d, "aaa_bad.templ")] = ent{Data: []byte(unparseableTempl(r, pkgName(d))), Mtime: mt()}
 		d = live[r.Intn(len(live))]
-		t.Files[path.Join(d, "zz_badgo.templ")] = ent{[]byte(badGoTempl(r, pkgName(d))), mt()}
+		t.Files[path.Join(d, "zz_badgo.templ")] = ent{Data: []byte(badGoTempl(r, pkgName(d))), Mtime: mt()}
 		if r.Intn(2) == 0 { // a bad file that already has a (stale) sibling: the sibling must survive unchanged
-			t.Files[path.Join(d, "zz_badgo_templ.go")] = ent{[]byte("package " + pkgName(d) + "\n// kept\n"), mt() - 200000}
+			t.Files[path.Join(d, "zz_badgo_templ.go")] = ent{Data: []byte("package " + pkgName(d) + "\n// kept\n"), Mtime: mt() - 200000}
 		}
 	}
 	sd := skippedDirs[r.Intn(len(skippedDirs))]
-	t.Files[path.Join(sd, "bad_in_skipped.templ")] = ent{[]byte(unparseableTempl(r, "x")), mt()}
+	t.Files[path.Join(sd, "bad_in_skipped.templ")] = ent{Data: []byte(unparseableTempl(r, "x")), Mtime: mt()}
 	// orphans inside and outside skipped directories
 	for i, n := 0, 2+r.Intn(4); i < n; i++ {
 		d := anyDir()
@@ -173,7 +177,7 @@ func genTree(r *rand.Rand, withBad bool, maxTempl int) treeSpec {
 		} else if i == 1 {
 			d = skippedDirs[r.Intn(len(skippedDirs))]
 		}
-		t.Files[path.Join(d, fmt.Sprintf("orphan%d_templ.go", i))] = ent{[]byte("package " + pkgName(d) + "\n\n// orphan " + fmt.Sprint(i) + "\n"), mt()}
+		t.Files[path.Join(d, fmt.Sprintf("orphan%d_templ.go", i))] = ent{Data: []byte("package " + pkgName(d) + "\n\n// orphan " + fmt.Sprint(i) + "\n"), Mtime: mt()}
 	}
 	// unrelated files (names that look similar to, but are not, templ/_templ.go files)
 	un := []string{"main.go", "util.go", "util_test.go", "notes.txt", "README.md", "page.templ.bak", "x_templ.go.orig", "view.templ.txt", "templ.go", "my_templ.gox", "go.mod", "data.json"}
@@ -184,7 +188,7 @@ func genTree(r *rand.Rand, withBad bool, maxTempl int) treeSpec {
 		if nm == "go.mod" {
 			body = "module example.com/m" + fmt.Sprint(r.Intn(100)) + "\n\ngo 1.23\n"
 		}
-		t.Files[path.Join(d, nm)] = ent{[]byte(body), mt()}
+		t.Files[path.Join(d, nm)] = ent{Data: []byte(body), Mtime: mt()}
 	}
 	sort.Strings(dirs)
 	t.Dirs = dirs
@@ -207,7 +211,7 @@ func materialise(parent string, t treeSpec) (string, error) {
 		if err := os.WriteFile(f, e.Data, 0o644); err != nil {
 			return "", err
 		}
-		tm := time.Unix(e.Mtime, 0)
+		tm := time.Unix(e.Mtime, e.Nanos)
 		if err := os.Chtimes(f, tm, tm); err != nil {
 			return "", err
 		}
